@@ -250,16 +250,20 @@ def handler_attribute_reads(ctx, idx, rule):
                 if isinstance(node, ast.If):
                     nb = narrow(node.test, narrowed)
                     visit(node.test, narrowed)
-                    for st in node.body:
-                        visit(st, nb)
-                    for st in node.orelse:
-                        visit(st, narrowed)
+                    visit_block(node.body, nb)
+                    visit_block(node.orelse, narrowed)
                     return
                 if isinstance(node, ast.BoolOp) and isinstance(node.op, ast.And):
                     cur = narrowed
                     for v in node.values:
                         visit(v, cur)
                         cur = narrow(v, cur)
+                    return
+                if isinstance(node, ast.BoolOp) and isinstance(node.op, ast.Or):
+                    cur = narrowed
+                    for v in node.values:
+                        visit(v, cur)
+                        cur = narrow_neg(v, cur)  # the next operand is evaluated only when this one was false
                     return
                 if isinstance(node, ast.IfExp):
                     visit(node.test, narrowed)
@@ -282,6 +286,37 @@ def handler_attribute_reads(ctx, idx, rule):
                         continue
                     visit(c, narrowed)
 
+            def leaves(stmts):
+                """the block never falls through: it ends in raise / return / continue / break / sys.exit(...)"""
+                if not stmts:
+                    return False
+                last = stmts[-1]
+                if isinstance(last, (ast.Raise, ast.Return, ast.Continue, ast.Break)):
+                    return True
+                if isinstance(last, ast.Expr) and isinstance(last.value, ast.Call):
+                    q = idx.qualname(f.module, last.value.func, f) or K.src(last.value.func)
+                    return q in ("sys.exit", "os._exit", "builtins.exit", "six.raise_from", "six.reraise")
+                return False
+
+            def visit_block(stmts, narrowed):
+                cur = narrowed
+                for st in stmts:
+                    visit(st, cur)
+                    # guard clause: `if not (isinstance(e, C) and ...): <leaves>` - what follows runs only when the test held
+                    if isinstance(st, ast.If) and not st.orelse and leaves(st.body):
+                        cur = narrow_neg(st.test, cur)
+
+            def narrow_neg(test, narrowed):
+                """what is known about the caught error when `test` is false"""
+                if isinstance(test, ast.UnaryOp) and isinstance(test.op, ast.Not):
+                    return narrow(test.operand, narrowed)
+                if isinstance(test, ast.BoolOp) and isinstance(test.op, ast.Or):
+                    cur = narrowed
+                    for v in test.values:
+                        cur = narrow_neg(v, cur)
+                    return cur
+                return narrowed
+
             def narrow(test, narrowed):
                 if isinstance(test, ast.Call) and isinstance(test.func, ast.Name) and test.func.id == "isinstance" and len(test.args) == 2 and isinstance(test.args[0], ast.Name) and test.args[0].id == h.name:
                     ts = test.args[1].elts if isinstance(test.args[1], ast.Tuple) else [test.args[1]]
@@ -297,8 +332,7 @@ def handler_attribute_reads(ctx, idx, rule):
                     return cur
                 return narrowed
 
-            for st in h.body:
-                visit(st, base)
+            visit_block(h.body, base)
     return n_sites
 
 
